@@ -130,7 +130,7 @@ def ser_node(n):
             [f2b(x) for x in u.position],
             None if u.velocity is None else [f2b(x) for x in u.velocity],
             ser_time(u.time_stamp),
-            None if u.charge is None else sorted((k, f2b(v)) for k, v in u.charge.items()),
+            None if u.charge is None else sorted((k, f2b(v)) for k, v in u.charge.items() if not k.startswith("pad_")),
             [ser_node(c) for c in n.children]]
 
 
@@ -422,9 +422,31 @@ def on_alarm(signum, frame):
     raise Deadlock()
 
 
+def install_fat_charges(n):
+    """every point mass gets n additional named charges (legal: the charge of a unit is a Mapping[str, float]); the
+    charge map is shared by reference with every in-state, so that pickled in-states become large"""
+    from jellyfysh.state_handler.tree_state_handler import TreeStateHandler
+    orig = TreeStateHandler.initialize
+
+    def initialize(self, global_physical_state):
+        def walk(node):
+            if node.children:
+                for c in node.children:
+                    walk(c)
+            elif isinstance(getattr(node.value, "charge", None), dict):
+                for i in range(n):
+                    node.value.charge["pad_%05d" % i] = float(i)
+        for root in global_physical_state:
+            walk(root)
+        return orig(self, global_physical_state)
+    TreeStateHandler.initialize = initialize
+
+
 def main():
     out = {"status": "ok"}
     cfg = load_config()
+    if P.get("fat_charges"):
+        install_fat_charges(int(P["fat_charges"]))
     tmp = tempfile.mkdtemp(prefix="c20out_", dir="/tmp")
     for sec in cfg.sections():
         if sec.endswith("OutputHandler") and cfg.has_option(sec, "filename"):
